@@ -170,7 +170,7 @@ func TestWrongWireType(t *testing.T) {
 		Classes: func(c wwCase) []string {
 			return []string{fmt.Sprintf("proto%d", c.Syntax), "shape:" + c.Shape, fmt.Sprintf("wiretype:%d", c.Typ), fmt.Sprintf("after:%v", c.After)}
 		},
-		Quick: 5000, Thorough: 100000,
+		Quick: 5000, Thorough: 60000,
 	})
 }
 
